@@ -83,7 +83,11 @@ class ComponentID(object):
             Label changes are not currently tracked by client classes.
             Labels should only be changd before creating other client objects.
         """
-        self._label = str(value)
+        value = str(value)
+        if value == self._label:
+            # nothing changes, so there is nothing to announce
+            return
+        self._label = value
         if self.parent is not None and self.parent.hub:
             msg = DataRenameComponentMessage(self.parent, self)
             self.parent.hub.broadcast(msg)
